@@ -7,11 +7,11 @@ CONSTANTS DEPTH, MODE, BINOPS, WIDE
 VARIABLES t, d
 vars == <<t, d>>
 Leaf == { [k |-> "id", n |-> "a"], [k |-> "lit", n |-> "true"] }
-Leaf2 == Leaf \cup { [k |-> "lit", n |-> "null"], [k |-> "lit", n |-> "1"], [k |-> "id", n |-> "b"], [k |-> "lit", n |-> "false"],
+Leaf2 == Leaf \cup { [k |-> "lit", n |-> "null"], [k |-> "lit", n |-> "1"], [k |-> "lit", n |-> "1.5"], [k |-> "lit", n |-> "1u"], [k |-> "id", n |-> "b"], [k |-> "lit", n |-> "false"],
                      \* identifiers that merely begin with a literal's spelling; string literals that differ only in their inner white space
                      [k |-> "id", n |-> "trueValue"], [k |-> "id", n |-> "nullable"], [k |-> "id", n |-> "false_1"], [k |-> "id", n |-> "inner"],
                      [k |-> "lit", n |-> "\"a b\""], [k |-> "lit", n |-> "\"a  b\""], [k |-> "lit", n |-> "\"a // b\""] }
-IdLike(x) == ~(x.k = "lit" /\ x.n = "1")       \* a numeric literal directly before "." is a lexical question (out of model)
+IdLike(x) == TRUE       \* (a numeric literal as a receiver is rendered in parentheses: see Render)
 Wrap(x, L) ==
         { [k |-> "bin", op |-> o, l |-> x, r |-> l] : o \in BINOPS, l \in L }
    \cup { [k |-> "bin", op |-> o, l |-> l, r |-> x] : o \in BINOPS, l \in L }
